@@ -420,6 +420,11 @@ func DecryptBytes(file []byte, armored bool, ids ...age.Identity) *Result {
 	return Decrypt(bytes.NewReader(file), armored, 0, ids...)
 }
 
+// DecryptBytesMode is DecryptBytes with a buffer size or consumption mode.
+func DecryptBytesMode(file []byte, armored bool, bufSize int, ids ...age.Identity) *Result {
+	return Decrypt(bytes.NewReader(file), armored, bufSize, ids...)
+}
+
 // Recorder wraps an identity and logs Unwrap calls into a shared log.
 type Recorder struct {
 	Inner age.Identity
